@@ -205,12 +205,15 @@ def check (prop : String) (inp out : List String) : Verdict :=
       let sh (fs : List Frame) : String := if fs.isEmpty then "-" else ",".intercalate (fs.map showFrame)
       let reqFrame (g : Nat) : Frame := request cfg.address 0x10 g
       let ans (g : Nat) : List Frame := (respond cfg { id := (reqFrame g).id, data := J1939.normalise (reqFrame g).data }).getD []
-      let want := s!"{sh [addressClaimed cfg.address cfg.name]}|{sh (ans Consts.pgnSoftwareIdentification)}|{sh (ans Consts.pgnAddressClaimed)}"
+      -- the requests every configured unit is sent when it is set up (in configuration order)
+      let setupReqs := ((units cfg).flatMap setupFrames).filter fun f => pgn f.id == Consts.pgnRequest
+      let want := s!"{sh [addressClaimed cfg.address cfg.name]}|{sh (ans Consts.pgnSoftwareIdentification)}|{sh (ans Consts.pgnAddressClaimed)}|{sh setupReqs}"
       let parts := r.splitOn "|"
       { agree := r == want, model := want,
         specFail := failing [
           ("every_configured_network_announces_itself", parts.headD "-" == sh [addressClaimed cfg.address cfg.name]),
-          ("every_configured_network_answers_requests", parts.drop 1 == [sh (ans Consts.pgnSoftwareIdentification), sh (ans Consts.pgnAddressClaimed)])] }
+          ("every_configured_network_answers_requests", (parts.drop 1).take 2 == [sh (ans Consts.pgnSoftwareIdentification), sh (ans Consts.pgnAddressClaimed)]),
+          ("every_configured_unit_is_set_up", parts.drop 3 == [sh setupReqs])] }
     | _, _ => .bad "daemon tokens"
   | _ => .bad "authority arity"
 
